@@ -122,4 +122,30 @@ theorem core_of_inv (s : State) (h : ModeInv s) (ho : s.opened = true) : Core s 
       subst hold
       exact Core.defRe ..
 
+/-- the three ways a file comes into being in the harness and in the property -/
+inductive Start : State → Prop
+  | created (hasRec : Bool) : Start (Mode.created hasRec)
+  | opened (write hasRec : Bool) : Start (Mode.openedFile write hasRec)
+
+
+/-- the only calls on which the pinned source differs from the repaired one -/
+def droppedCheck (s : State) : Call → Bool
+  | .fillVarRec v => s.opened && fillDispErr s.d v != .noerr
+  | _ => false
+
+
+/-- the documented automaton iterated over a history -/
+def specRun (a : AState) : List Call → AState
+  | [] => a
+  | c :: cs => specRun (specStep a c).st cs
+
+
+/-- The one place where the number of processes matters: a *collective varn* call whose argument
+    tests fail still joins the collective wait with a null request id, and `extract_reqs` then
+    completes the caller's single pending request (defect F4 of property C02 seen from here). -/
+def flushQuirk (cfg : Cfg) (s : State) : Call → Bool
+  | .rw _ true _ _ _ true => cfg.multi && (s.nGet == 0 && s.nPut == 1 || s.nPut == 0 && s.nGet == 1)
+  | _ => false
+
+
 end PnVerif.ModeLemmas
